@@ -591,7 +591,10 @@ def do_check(prop, args, scratch, seed, t0):
     need_witness = not os.environ.get("VERIF_NO_WITNESS")
     if need_witness:
         for u in units:
-            if u.get("witness") and (args.tier == "thorough" or u.get("witness_in_quick") or u.get("mode") == "bounded" or u["unit"] in und_units
+            # a unit that also serves other properties runs its witness in THEIR quick tier only if it says so (`witness_for`);
+            # it still runs whenever the verifier is undecided or refutes something in it (below), and always in the thorough tier
+            in_quick = u.get("witness_in_quick") and (not u.get("_foreign") or prop in u.get("witness_for", []))
+            if u.get("witness") and (args.tier == "thorough" or in_quick or u.get("mode") == "bounded" or u["unit"] in und_units
                                      or any(n == u["unit"] for n, _ in failures)):
                 failed = [f["obligation"] for n, f in failures if n == u["unit"]]
                 witness[u["unit"]] = run_witness(u, scratch, failed, args.tier)
